@@ -6,6 +6,7 @@
 import TdVerif.Model.C14Seq
 import TdVerif.Lemmas.C14
 import TdVerif.Model.C14Prob
+import TdVerif.Lemmas.C14Nested
 
 namespace TdVerif.Props.C14
 open TdVerif.C14
@@ -520,6 +521,93 @@ theorem partial_tolerant_total : ∀ (ms : List Mod) (e : Env),
     · have hf : (m.ins.all fun k => e.has k) = false := by simpa using hall
       simp only [hf, Bool.not_false, if_true, Bool.false_eq_true, if_false]
       exact ih e
+
+end TdVerif.Props.C14
+
+/-! ## the advertised keys of a nested sequence are those of its flattening -/
+namespace TdVerif.Props.C14
+open TdVerif.C14
+
+def outsOf : List Node → List Key
+  | [] => []
+  | n :: ns => n.outs ++ outsOf ns
+
+theorem allOuts_append (a b : List Mod) : allOuts (a ++ b) = allOuts a ++ allOuts b := by
+  simp [allOuts, List.flatMap_append]
+
+theorem nodesInOut_outs : ∀ (kids : List Node) (ins outs : List Key),
+    (nodesInOut kids ins outs).2 = outs ++ outsOf kids
+  | [], _, _ => by simp [nodesInOut, outsOf]
+  | n :: ns, ins, outs => by
+    simp only [nodesInOut, outsOf, nodesInOut_outs ns, List.append_assoc]
+
+theorem kidsOuts : ∀ (kids : List Node), PlainNodes kids →
+    (∀ k, k ∈ outsOf kids ↔ k ∈ allOuts (flatNodes kids)) ∧
+    (∀ pre post, dedupLast (pre ++ outsOf kids ++ post) = dedupLast (pre ++ allOuts (flatNodes kids) ++ post))
+  | [], _ => by simp [outsOf, flatNodes, allOuts]
+  | .mod x :: ns, hp => by
+    simp only [PlainNodes, PlainNode] at hp
+    obtain ⟨ih1, ih2⟩ := kidsOuts ns hp.2
+    have houts : (Node.mod x).outs = allOuts [x.m] := by simp [Node.outs, hp.1.2, allOuts]
+    simp only [outsOf, flatNodes, flatNode, allOuts_append, houts]
+    refine ⟨fun k => by simp [ih1 k], ?_⟩
+    intro pre post
+    have := ih2 (pre ++ allOuts [x.m]) post
+    simpa [List.append_assoc] using this
+  | .seq k' ip sel pt :: ns, hp => by
+    simp only [PlainNodes, PlainNode] at hp
+    obtain ⟨⟨rfl, rfl, rfl, hk'⟩, hns⟩ := hp
+    obtain ⟨ihk1, ihk2⟩ := kidsOuts k' hk'
+    obtain ⟨ih1, ih2⟩ := kidsOuts ns hns
+    have houts : (Node.seq k' none none false).outs = dedupLast (outsOf k') := by
+      simp [Node.outs, nodesInOut_outs]
+    simp only [outsOf, flatNodes, flatNode, allOuts_append, houts]
+    refine ⟨fun k => by simp [mem_dedupLast, ihk1 k, ih1 k], ?_⟩
+    intro pre post
+    have s1 : dedupLast (pre ++ (dedupLast (outsOf k') ++ (outsOf ns ++ post)))
+        = dedupLast (pre ++ (outsOf k' ++ (outsOf ns ++ post))) :=
+      dedupLast_congr_pre pre (fun k => by simp [mem_dedupLast]) (dedupLast_inner _ _)
+    have s2 := ihk2 pre (outsOf ns ++ post)
+    have s3 := ih2 (pre ++ allOuts (flatNodes k')) post
+    simp only [List.append_assoc] at s1 s2 s3 ⊢
+    rw [s1, s2, s3]
+
+theorem kidsKeys : ∀ (kids : List Node), PlainNodes kids → ∀ (ins oN oF : List Key), (∀ k, k ∈ oN ↔ k ∈ oF) →
+    (nodesInOut kids ins oN).1 = (inOutAux (flatNodes kids) ins oF).1
+  | [], _, _, _, _, _ => by simp [nodesInOut, flatNodes, inOutAux]
+  | .mod x :: ns, hp, ins, oN, oF, hm => by
+    simp only [PlainNodes, PlainNode] at hp
+    simp only [nodesInOut, flatNodes, flatNode, List.cons_append, List.nil_append, inOutAux, Node.ins, Node.outs,
+      hp.1.2, Option.getD_none]
+    rw [addIns_congr hm]
+    exact kidsKeys ns hp.2 _ _ _ (fun k => by simp [hm k])
+  | .seq k' ip sel pt :: ns, hp, ins, oN, oF, hm => by
+    simp only [PlainNodes, PlainNode] at hp
+    obtain ⟨⟨rfl, rfl, rfl, hk'⟩, hns⟩ := hp
+    have hins : (Node.seq k' none none false).ins = (inOutAux (flatNodes k') [] []).1 := by
+      simp only [Node.ins]; exact kidsKeys k' hk' [] [] [] (fun _ => Iff.rfl)
+    have houts : (Node.seq k' none none false).outs = dedupLast (outsOf k') := by
+      simp [Node.outs, nodesInOut_outs]
+    simp only [nodesInOut, flatNodes, flatNode, inOutAux_append, hins, houts]
+    have hnest := inOutAux_nest (flatNodes k') [] [] ins oF
+    simp only [addIns, List.append_nil] at hnest
+    rw [hnest, addIns_congr hm, inOutAux_outs]
+    apply kidsKeys ns hns
+    intro k
+    simp [mem_dedupLast, hm k, (kidsOuts k' hk').1 k]
+
+/-- **nested_keys_as_flattening** — for nested sequences with default options (any depth), the advertised
+`in_keys` and `out_keys` are exactly those `_compute_in_and_out_keys` gives for the flat list of modules;
+with `nested_runs_as_flattening`, `in_keys_sufficient`, `in_keys_determine` and `out_keys_last_writer` speak
+about nested sequentials too. -/
+theorem nested_keys_as_flattening (kids : List Node) (hp : PlainNodes kids) :
+    (Node.seq kids none none false).ins = inKeys (flatNodes kids) ∧
+    (Node.seq kids none none false).outs = outKeys (flatNodes kids) := by
+  constructor
+  · simp only [Node.ins, inKeys]; exact kidsKeys kids hp [] [] [] (fun _ => Iff.rfl)
+  · simp only [Node.outs, Option.getD_none, outKeys, nodesInOut_outs, inOutAux_outs, List.nil_append]
+    have := (kidsOuts kids hp).2 [] []
+    simpa using this
 
 end TdVerif.Props.C14
 
